@@ -109,6 +109,20 @@ def check(ctx, lib, c):
         nontriv = k >= R or not c["ts"].endswith("uniform") or bool(al)
         ctx.count(c, nontriv, "%s:%s" % (op, "k>=r" if k >= R else c["ts"]))
         expect(got == exp, "%s/%s" % (op, "inplace" if al else "value"), lambda: "t=%x k=%x" % (t, k))
+        # related calls through the same entry point: the inverse of the base (its conjugate: same c0, negated c1) with another
+        # exponent, and the result of the first call as the next base
+        k2 = (k * 0x9E3779B97F4A7C15 + t + 1) % (1 << 256)
+        K2 = conv.bi(k2, 256)
+        for base_t, img in (((-t) % R, conv.fq12_b(F.flat_to_tower(PR.gt_pow_gen((-t) % R)))), (t * k % R, out)):
+            if op == "capi_multiply":
+                lib.A.write(img)
+                lib.B.write(K2)
+                lib.O.fill(0xCD, 576)
+                f(lib.O.ptr, lib.A.ptr, lib.B.ptr)
+                o2 = lib.O.read(576)
+            else:
+                o2 = lib.op("fq12_" + op, img, K2)[1]
+            expect(F.tower_to_flat(conv.b_fq12(o2)) == PR.gt_pow_gen(base_t * k2), "%s/after-related-call" % op, lambda: "first a^k with t=%x k=%x, then base GT^%x with k2=%x: wrong value" % (t, k, base_t, k2))
         return
     if op == "exp_gt_px":
         cs = c["c"]
